@@ -158,6 +158,29 @@ func c04Run(cs *c04Case, py *pyRef) {
 		}
 		cs.Downloads = append(cs.Downloads, d)
 	}
+	// a download into a directory that already holds, under the name of one of the files, other bytes of the same
+	// length: refused, or else the directory ends up holding the bundle
+	for _, f := range cs.Files {
+		listed := false
+		for _, e := range es {
+			listed = listed || e.Name == f.Name
+		}
+		if !listed || len(f.Data) == 0 {
+			continue
+		}
+		other := append([]byte(nil), f.Data...)
+		other[len(other)/2] ^= 0x55
+		if files, err := w.DownloadOver("repo", id, []world.File{{Name: f.Name, Data: other}}); err == nil {
+			d := c04Download{Sel: c04Sel{Kind: "all"}, Ok: true}
+			for _, g := range files {
+				if !strings.HasPrefix(g.Name, ".datamon/") {
+					d.Files = append(d.Files, [2]string{g.Name, short(py.key(int(cs.Leaf), g.Data))})
+				}
+			}
+			cs.Downloads = append(cs.Downloads, d)
+		}
+		break
+	}
 }
 
 func c04Coq(cs *c04Case) string {
